@@ -38,6 +38,13 @@ def _fam():
         "Laplace": (lambda: fd.Laplace(v([0.3, -0.2]), v([1.5, 0.7])), "locscale"),
         "Exponential": (lambda: fd.Exponential(v([2.0, 0.5])), "exponential"),
         "Logistic": (lambda: fd.Logistic(v([0.3, -0.2]), v([1.5, 0.7])), "locscale"),
+        # rank-2 event shapes (log(pi)-style constants must be counted once per independent dimension, not per last-axis element)
+        "Normal(2x2)": (lambda: fd.Normal(v([[0.3, -0.2], [0.1, 0.4]]), v([[1.5, 0.7], [1.1, 0.6]])), "locscale"),
+        "Gumbel(2x2)": (lambda: fd.Gumbel(v([[0.3, -0.2], [0.1, 0.4]]), v([[1.5, 0.7], [1.1, 0.6]])), "locscale"),
+        "Cauchy(2x2)": (lambda: fd.Cauchy(v([[0.3, -0.2], [0.1, 0.4]]), v([[1.5, 0.7], [1.1, 0.6]])), "locscale"),
+        "Laplace(2x2)": (lambda: fd.Laplace(v([[0.3, -0.2], [0.1, 0.4]]), v([[1.5, 0.7], [1.1, 0.6]])), "locscale"),
+        "Logistic(2x2)": (lambda: fd.Logistic(v([[0.3, -0.2], [0.1, 0.4]]), v([[1.5, 0.7], [1.1, 0.6]])), "locscale"),
+        "Cauchy(bcast 2x2)": (lambda: fd.Cauchy(v(0.3), v([[1.5, 0.7], [1.1, 0.6]])), "locscale"),
         "MultivariateNormal": (lambda: fd.MultivariateNormal(v([0.3, -0.2]), v([[2.0, 0.3], [0.3, 1.0]])), "mvn"),
     }
 
@@ -222,7 +229,7 @@ def replay_family(name):
     pts = [-3.0, -1.0, -0.2, 0.0, 0.5, 1.0, 2.0, 2.5, 3.0, 7.0]
     for p0 in pts:
         for p1 in (p0, 0.7):
-            x = np.array(p0) if d.shape == () else np.array([p0, p1])
+            x = np.array(p0) if d.shape == () else np.array([p0, p1]) if d.shape == (2,) else np.array([[p0, p1], [p1 - 0.3, p0 + 0.4]])
             got = float(d.log_prob(jnp.asarray(x)))
             if kind == "locscale":
                 loc, sc = np.broadcast_to(np.asarray(d.loc), d.shape), np.broadcast_to(np.asarray(d.scale), d.shape)
@@ -473,6 +480,7 @@ def _chunks(xs, n):
 
 
 def obligations(tier, seed):
-    names = ["Normal", "Normal()", "Normal(bcast)", "LogNormal", "Uniform", "Gumbel", "Cauchy", "StudentT", "Laplace", "Exponential", "Logistic", "MultivariateNormal"]
+    names = ["Normal", "Normal()", "Normal(bcast)", "LogNormal", "Uniform", "Gumbel", "Cauchy", "StudentT", "Laplace", "Exponential", "Logistic", "MultivariateNormal",
+             "Normal(2x2)", "Gumbel(2x2)", "Cauchy(2x2)", "Laplace(2x2)", "Logistic(2x2)", "Cauchy(bcast 2x2)"]
     return [dict(name=n, func="c05:ob_family", kwargs=dict(name=n), cost=3, replay=dict(func="c05:replay_family", kwargs=dict(name=n))) for n in names] + [dict(name="mixture", func="c05:ob_mixture", kwargs={}, cost=5), dict(name="accessors", func="c05:ob_accessors", kwargs={}, cost=5)] + \
         [dict(name=f"keys/{i}", func="c05:ob_keys", kwargs=dict(names=chunk), cost=4) for i, chunk in enumerate(_chunks(list(_key_dists()), 4))]
